@@ -49,11 +49,8 @@ fn default_custom_value() -> serde_json::Value {
 impl ZervVars {
     fn derive_short_hash(hash: Option<&String>) -> Option<String> {
         hash.map(|h| {
-            if h.len() >= 8 {
-                h[..8].to_string()
-            } else {
-                h.clone()
-            }
+            // first 8 characters; a byte slice panics inside a multi-byte char
+            h.chars().take(8).collect()
         })
     }
 
